@@ -3,7 +3,7 @@ CONSTANTS Conns = {1, 2, 3}
           Sizes = {0, 1, 5}
           RecvMax = 0
           MaxItems = 9
-          Transports = {"tcp", "ipc"}
+          Transports = {"tcp", "ipc", "sfd"}
           Dir = "in"
 INVARIANTS Faithful OnlyOffenderDropped
 ACTION_CONSTRAINT ExportEdge
